@@ -79,7 +79,9 @@ MANIFEST = dict(
         "batch(i)/positionInBatch(i)/index(i), subsets of subsets, toDataset with batch size 1/default/unlimited, subBatch, randomSubset of more than 2^16 "
         "elements, writes through dataset and view proxies, splitAtElement/splitBatch/splice at 2^16 and 2^16+1, append, push_back, indexedSubset and "
         "complement of tens of thousands of batches, repartition one batch <-> unit batches, reorderElements, shuffle, repartitionByClass with a class "
-        "batch above 2^16, binarySubProblem, oneVersusRest, transform) is driven through the 16-bit boundary."),
+        "batch above 2^16, binarySubProblem, oneVersusRest, transform) is driven through the 16-bit boundary.  MID-SIZE histories (on the Lean model, "
+        "exact correspondence like every other case): every run ends with 6 (quick) / 24 (thorough) histories on datasets of 255/256/257/511..513/200..700 "
+        "elements with maximum batch sizes 0 (default 256), 1, 100, 128, 255..257, n, n+1 -- several batches under the default batch size, 8-bit boundaries."),
   note=TRUST + "translate/index_types.py (clang-14 JSON AST -> list of integer-typed declarations, allowlist of label / OpenMP-counter names) is trusted; "
        "the scale family is oracle-only (no model run at 2^16 elements): O(#batches) accessors are read at every position only while n*#batches <= 3e6, "
        "else around multiples of 2^16, batch borders around batch 2^16, the ends and 10 pseudo-random positions; index types narrower than 64 but wider "
@@ -202,9 +204,10 @@ def index_list(ctx, r, nb, what):
     return idx
 
 
-def gen_case(ctx, r, model, maxlen, allowed=None, avoid=()):
+def gen_case(ctx, r, model, maxlen, allowed=None, avoid=(), mid=False):
     """one history; `model` answers with the state after every op.  `allowed`: restrict the op kinds
-    (the weighted-dataset harness supports a subset); `avoid`: triggers of open findings the stream keeps away from"""
+    (the weighted-dataset harness supports a subset); `avoid`: triggers of open findings the stream keeps away from;
+    `mid`: datasets of 200..700 elements (across the default batch size 256 and the 8-bit boundary), still run on the Lean model"""
     ops, base = [], 0
     rng_seen = False      # after a shuffle the generator knows the partitioning but not the element order the real code drew
 
@@ -226,9 +229,12 @@ def gen_case(ctx, r, model, maxlen, allowed=None, avoid=()):
         if "empty-range" not in avoid and r.chance(1, 12):
             n = 0
         m = r.choice([0, 1, 2, 3, 4, max(1, n - 1), max(1, n), n + 1, n + 2, r.range(1, n + 2), r.range(1, n + 2)])
+        if mid:
+            n = r.choice([255, 256, 257, 300, 511, 512, 513, r.range(200, 700), r.range(200, 700)])
+            m = r.choice([0, 0, 0, 1, 100, 128, 255, 256, 257, n, n + 1, r.range(1, n + 2)])
         labels = gen_labels(r, n)
         base += 100
-        ctx.hist("new_n", "0" if n == 0 else "1" if n == 1 else "2-9" if n < 10 else f"{min(n // 10 * 10, 70)}+")
+        ctx.hist("new_n", "0" if n == 0 else "1" if n == 1 else "2-9" if n < 10 else "200-700" if n >= 200 else f"{min(n // 10 * 10, 70)}+")
         ctx.hist("new_maxbatch_rel", "default" if m == 0 else ("1" if m == 1 else ("<n" if m < n else ("=n" if m == n else ">n"))))
         ctx.hist("n_mod_m", "default" if m == 0 else ("divides" if n % m == 0 else "remainder"))
         return emit(f"new {slot} {m} {base} " + " ".join(map(str, labels)))
@@ -544,6 +550,12 @@ def run_stream(ctx, exe, exew, drv):
             c = gen_case(ctx, r, model, maxlen, avoid=avoid)
             if c:
                 cases.append(c)
+        # mid-size histories (own rng fork: the small histories of a seed stay what they were)
+        rm = core.SplitMix64(ctx.seed).fork("c03mid")
+        for _ in range(int(os.environ.get('VERIF_NCASES_MID', 6 if ctx.quick else 24))):
+            c = gen_case(ctx, rm, model, 20 if ctx.quick else 30, avoid=avoid, mid=True)
+            if c:
+                cases.append(c); ctx.count("mid_size_cases")
         wcases = dsgen.load_corpus("C03W") + passing["w"]
         for _ in range(ncases):
             c = gen_case(ctx, r, model, 2 * maxlen, allowed=W_OPS, avoid=avoid)
